@@ -297,7 +297,7 @@ Qed.
 Lemma lex_pol_good l : wf total l -> good total (start l) (mu SPredOrLit l) (lex_pred_or_lit l).
 Proof.
   intros [Hs Hp]. unfold lex_pred_or_lit.
-  set (pi := index_of (zs s_anchor) (map fst (rest l))). set (li := index_of (zs s_literalType) (map fst (rest l))).
+  set (pi := index_of (zs s_anchor) (tl (map fst (rest l)))). set (li := index_of (zs s_literalType) (tl (map fst (rest l)))).
   assert (G : forall st, st = SPredicate \/ st = SLiteral -> good total (start l) (mu SPredOrLit l) ([], Some st, l)).
   { intros st Hst. apply good_goto; unfold wf, mu; try lia. destruct Hst; subst; cbn [rank]; lia. }
   destruct pi as [p|]; destruct li as [q|]; cbv beta iota;
